@@ -21,6 +21,7 @@ Not decided: inverse round trips through arctan2 (needs inverse-trig reasoning).
 import ast
 
 from hpstatic.interp import Interp, expr_term
+from hpstatic.logic import cmp_is
 from hpstatic.loader import AnalysisError
 from hpstatic.poly import Canon
 from hpstatic.terms import (sym, intern, show, subterms, calls_in, NONE, num, kw)
@@ -91,6 +92,19 @@ def rotation(check, prog, canon):
         it = Interp(prog, max_depth=1, decide=decide)
         res = it.analyze(q)
         v = res.ret
+        # "in radians or degrees", for every call: converting the angles must not
+        # write into the caller's objects (an in-place `angle *= pi/180` on an array
+        # argument leaves it in radians, and the next call converts it again)
+        inplace = [e for e in it.effects if e['kind'] == 'augassign' and
+                   e['target'][0] == 'sym' and e['target'][1] in
+                   [a.arg for a in fd.args.args]]
+        check.require(not inplace, 'M1-arguments-untouched',
+                      'rotation_matrix [%s]' % ('radians' if radians else 'degrees'),
+                      'the angle arguments are not modified in place', loc,
+                      fail_detail='%s: an array argument (np.array(30.), a slice of an '
+                      'array of angles) is overwritten with its value in radians; the '
+                      'second call with the same objects gives another matrix' % [
+                          e['target_src'] + ' ' + e['op'] + '= ...' for e in inplace])
         items = None
         if v[0] == 'call' and isinstance(v[1], tuple) and v[1][0] == 'attr' and \
                 v[1][2] == 'reshape':
@@ -513,6 +527,7 @@ def argument_forms(check, prog):
         D = intern(('cmp', 'is not', a3, NONE))
         ok = len(res.raises) == 1 and 'InvalidScatterer' in show(res.raises[0].value)
         vecform = None
+        why3 = ''
         if ok:
             cs = norm_cond(res.raises[0].cond)
             ok = len(cs) == 2 and cs[0][1] is False and cs[1][1] is False and \
@@ -522,8 +537,13 @@ def argument_forms(check, prog):
             if ok:
                 vecform = cs[0][0]
                 other = [x for x in vecform[2] if x != A][0]
-                ok = other[0] == 'call' and other[1] == 'len' and \
-                    any(x == a1 for x in subterms(other))
+                # "a 3-vector": len(<the first argument as an array>) == 3 -- the
+                # length of the argument, not the length of a comparison result
+                ea = intern(('call', 'holopy.core.utils.ensure_array', (a1,), ()))
+                ln = [intern(('call', 'len', (x,), ())) for x in (ea, a1)]
+                ok = any(cmp_is(other, '==', l_, num(3)) for l_ in ln)
+                if not ok:
+                    why3 = 'the vector form is taken under %s' % show(other)[:80]
         # where the value is chosen, the vector form goes with the vector test
         if ok:
             sel = [x for x in subterms(res.ret) if x[0] == 'ite' and x[1] == vecform]
@@ -536,7 +556,9 @@ def argument_forms(check, prog):
         check.require(ok, 'M6-argument-forms', short,
                       'one 3-vector (2nd argument None) or three numbers (2nd and 3rd '
                       'given); anything else raises InvalidScatterer', loc,
-                      fail_detail='raises under %s' % [
+                      fail_detail=(why3 + ' (true for any argument that has a length, '
+                                   'and a scalar is then added to all three coordinates); '
+                                   if why3 else '') + 'raises under %s' % [
                           [(show(t)[:80], p) for t, p in o.cond] for o in res.raises])
 
 
